@@ -1,6 +1,8 @@
 // LD_PRELOAD shim used by the defect reproductions (E1, E2): logs write/pwrite/fsync/fdatasync on
 // regular files to $IOSHIM_LOG ("W <fd> <offset> <len>" / "S <fd> <result>") and makes the fsync whose
 // ordinal (1-based, counted over the process) equals the integer stored in the file $IOSHIM_CTL fail with EIO.
+// If $IOSHIM_CTL holds "W <n>" instead, the n-th write (1-based, counted over the process) to a matching file
+// fails with EIO without writing anything ("W <fd> <offset> <len> FAIL" is logged).
 #define _GNU_SOURCE
 #include <dlfcn.h>
 #include <errno.h>
@@ -35,11 +37,25 @@ static int is_db(int fd) {
     const char *tag = getenv("IOSHIM_MATCH");
     return tag && strstr(path, tag) != 0;
 }
+static int nwrite = 0;
 ssize_t write(int fd, const void *buf, size_t len) {
     static ssize_t (*real)(int, const void *, size_t) = 0;
     if (!real) real = dlsym(RTLD_NEXT, "write");
     if (is_db(fd)) {
         char l[128];
+        nwrite++;
+        int failw = -1;
+        const char *ctl = getenv("IOSHIM_CTL");
+        if (ctl) {
+            FILE *f = fopen(ctl, "r");
+            if (f) { if (fscanf(f, "W %d", &failw) != 1) failw = -1; fclose(f); }
+        }
+        if (failw == nwrite) {
+            snprintf(l, sizeof l, "W %d %lld %zu FAIL\n", fd, (long long)lseek(fd, 0, SEEK_CUR), len);
+            logline(l);
+            errno = EIO;
+            return -1;
+        }
         snprintf(l, sizeof l, "W %d %lld %zu\n", fd, (long long)lseek(fd, 0, SEEK_CUR), len);
         logline(l);
     }
